@@ -225,6 +225,23 @@ func describe(je journalEntry) (map[string]interface{}, map[string]interface{}) 
 	key := map[string]interface{}{"family": je.Family, "lang": je.Lang, "loader": je.Key.Loader, "flags": flagSetNames[je.Key.FS], "mode": je.Key.Mode}
 	// the input also in base64: JSON cannot carry invalid UTF-8
 	detail := map[string]interface{}{"case": je.CaseID, "input": string(je.Input), "input_b64": base64.StdEncoding.EncodeToString(je.Input), "input_bytes": len(je.Input), "eval": je.Key, "extra": je.Extra}
+	if je.Family == "cfgpat" || je.Family == "opts" {
+		// the case is a JSON document: name the table family / the covered pair in the key
+		var doc struct {
+			Family struct {
+				Name string `json:"name"`
+			} `json:"family"`
+			Key  string   `json:"key"`
+			Pair []string `json:"pair"`
+		}
+		if json.Unmarshal(je.Input, &doc) == nil {
+			if je.Family == "cfgpat" {
+				key["table"], key["table_key"] = doc.Family.Name, doc.Key
+			} else {
+				key["pair"] = strings.Join(doc.Pair, "=")
+			}
+		}
+	}
 	if je.Family == "nest" && je.Extra != nil {
 		key["nest_open"] = je.Extra["open"]
 		key["binds"] = je.Extra["binds"]
@@ -361,7 +378,14 @@ func (c *ctx) runBatchChild(in batchIn) {
 		}
 		c.absorb(in, &out)
 		if out.Hung != nil {
-			c.examine(*out.Hung, "hung")
+			if c.examine(*out.Hung, "hung") && (in.Family == "opts" || in.Family == "cfgpat") {
+				// the verdict is in; every further row that hangs would cost minutes
+				r.Logf("batch %s: a hang is confirmed, the rest of the batch is not run", in.ID)
+				c.mu.Lock()
+				c.skippedBatches[in.Family+"-after-confirmed-hang"]++
+				c.mu.Unlock()
+				return
+			}
 			if in.Skip == nil {
 				in.Skip = map[string]bool{}
 			}
@@ -448,6 +472,11 @@ func (c *ctx) absorb(in batchIn, out *batchOut) {
 		}
 	}
 	for _, je := range out.SlowOnes {
+		if out.Hung != nil && (in.Family == "opts" || in.Family == "cfgpat") {
+			// tiny well-formed inputs: the evaluation the batch was abandoned for is examined (by the caller); the
+			// other workers that were stuck at that moment would each cost another solo run of minutes
+			break
+		}
 		c.examine(je, "slow")
 	}
 }
@@ -903,6 +932,9 @@ func Run(r *core.Run) {
 	preMut.Add(1)
 	go func() { defer preMut.Done(); seeds, scripts = c.mutTLC() }()
 	go func() { defer pre.Done(); hdr, stems = c.enumTLC() }()
+	wg.Add(2)
+	go func() { defer wg.Done(); c.optsFamilyRun(&wg) }()
+	go func() { defer wg.Done(); c.cfgFamilyRun(&wg) }()
 	kinds := c.nestFamily(&wg)
 	pre.Wait()
 	if hdr != nil {
